@@ -71,7 +71,7 @@ G0 == [tr |-> -1, brought |-> 0, taken |-> 0, banks |-> <<>>, bankIds |-> {}, la
        missed |-> <<>>, missedIds |-> {}, ext |-> FALSE, closedBetween |-> FALSE, lastStatus |-> "none",
        cnt |-> <<>>, cntIds |-> {}, actEvents |-> <<>>, spyCalls |-> <<>>, inGate |-> "", blindSet |-> <<>>, blindSetInGate |-> FALSE,
        leftSince |-> {}, faults |-> 0, lastUpd |-> 0, kfMidLeave |-> FALSE,
-       withholdSt |-> <<>>, settledSt |-> <<>>, openSt |-> <<>>, callQ |-> <<>>, pubH |-> <<>>, nospy |-> FALSE, autoFails |-> 0, errEvents |-> 0, afterFire |-> FALSE, fireSt |-> <<>>]
+       withholdSt |-> <<>>, settledSt |-> <<>>, openSt |-> <<>>, callQ |-> <<>>, pubH |-> <<>>, nospy |-> FALSE, engineHand |-> <<>>, engineStatus |-> "none", lastGcSeen |-> 0, enginePlayers |-> 0, autoFails |-> 0, errEvents |-> 0, afterFire |-> FALSE, fireSt |-> <<>>]
 
 Fn(f, ids, x, d) == IF x \in ids THEN f[x] ELSE d
 ZeroCnt == [at |-> 0, ct |-> 0, kt |-> 0, fold |-> FALSE, fr |-> ""]
@@ -145,8 +145,9 @@ Upd(gg, k) ==
       g7 == IF t.ev \in {"q", "end"} THEN [g6 EXCEPT !.settledSt = <<>>] ELSE g6
       g7b == IF t.ev = "spy" /\ t.res = "fail" /\ t.a.kind \in {"readyall", "ante", "blinds", "next", "create"} THEN [g7 EXCEPT !.autoFails = @ + 1]
              ELSE IF t.ev = "cb:error" /\ t.res = "ErrInjected" THEN [g7 EXCEPT !.errEvents = @ + 1] ELSE g7
-      g8 == IF t.ev = "hook" /\ t.a.kind = "continue.fire" THEN [g7b EXCEPT !.afterFire = TRUE, !.fireSt = <<st>>]
-            ELSE IF ~IsRet(t) THEN [g7b EXCEPT !.afterFire = FALSE] ELSE g7b
+      g7c == IF t.ev = "cb:updated" THEN [g7b EXCEPT !.engineHand = st.hand, !.engineStatus = st.status, !.lastGcSeen = st.gc, !.enginePlayers = Len(st.players)] ELSE g7b
+      g8 == IF t.ev = "hook" /\ t.a.kind = "continue.fire" THEN [g7c EXCEPT !.afterFire = TRUE, !.fireSt = <<st>>]
+            ELSE IF ~IsRet(t) /\ t.ev \notin {"actorview", "actorsdone"} THEN [g7c EXCEPT !.afterFire = FALSE] ELSE g7c
   IN g8
 
 \* ---------------------------------------------------------------- C03
@@ -221,6 +222,20 @@ C02_openList(t) ==
     /\ Len(ids) >= 1 => [i \in 1..Len(ids) |-> P(st, ids[i]).seat] \in Rotations(SortedSeats({P(st, id).seat : id \in PartIds(st)}))
 C02_stable(t, gg) ==
   (Trusty(t) /\ gg.handLive /\ ~IsOpenSnap(t) /\ t.st.gc = gg.lastGc /\ t.st.status \in HandStatuses) => GpiIds(t.st) = gg.handIds
+\* ---------------------------------------------------------------- C20 (observers, independent copies)
+ObserverKinds == {"observer", "observer2"}
+HiddenFromObserver(h) ==
+  /\ h.deck = 0 /\ h.burned = 0
+  /\ IF h.ev = "GameClosed"
+     THEN \A i \in 1..Len(h.p) : h.p[i].fold => (h.p[i].hole = 0 /\ ~h.p[i].combo)
+     ELSE \A i \in 1..Len(h.p) : h.p[i].hole = 0 /\ ~h.p[i].combo
+C20_observerHidden(t) == (t.ev = "actorview" /\ t.a.kind \in ObserverKinds /\ HasHand(t.st)) => HiddenFromObserver(H(t.st))
+\* what the non-system observer hides is invisible to the system observer delivered before or after it, and to the engine
+C20_otherActorsIntact(t, gg) == (t.ev = "actorview" /\ t.a.kind = "system") => t.st.hand = gg.engineHand
+C20_engineIntact(t, gg) == (t.ev = "actorsdone") => t.st.hand = gg.engineHand
+C20_viewIsSnapshot(t, gg) ==
+  (t.ev = "actorview") => (t.st.status = gg.engineStatus /\ t.st.gc = gg.lastGcSeen /\ Len(t.st.players) = gg.enginePlayers)
+
 \* ---------------------------------------------------------------- C17 (calls routed through the manager)
 MgrLines == {"mgrprobe", "mgrclose", "mgrbystander"}
 C17_bystandersUntouched(t) == (t.by # "") => t.by = "same"
@@ -484,7 +499,10 @@ CheckLine(k, gg) ==
   t.ev = "scenario" \/
   (t.ev \in MgrLines /\ Clause("C17_notFound", C17_notFound(t), "", k) /\ Clause("C17_closeRemoves", C17_closeRemoves(t), "", k)
                     /\ Clause("C17_bystandersRemain", C17_bystandersRemain(t), "", k) /\ Clause("C17_bystandersUntouched", C17_bystandersUntouched(t), "", k)) \/
-  /\ t.ev \notin MgrLines
+  (t.ev \in {"actorview", "actorsdone"} /\ Clause("C20_observerHidden", C20_observerHidden(t), "", k)
+      /\ Clause("C20_otherActorsIntact", C20_otherActorsIntact(t, gg), "", k) /\ Clause("C20_engineIntact", C20_engineIntact(t, gg), "", k)
+      /\ Clause("C20_viewIsSnapshot", C20_viewIsSnapshot(t, gg), "", k)) \/
+  /\ t.ev \notin MgrLines /\ t.ev \notin {"actorview", "actorsdone"}
   /\ Clause("C17_bystandersUntouched", C17_bystandersUntouched(t), "", k)
   /\ (midOp \/ t.a.note = "background" \/ MemberConforms(t) \/ PrintT(<<"DRIFT", k, t.ev, t.res>>))
   /\ Clause("C03_noPanic", t.res # "panic" /\ st.status # "projection-panic" /\ t.ev # "crash", kfmid, k)
